@@ -35,6 +35,7 @@ def run(ctx):
                            M.md(declared, ver, dl0, expiration="2030-01-01t00:00:00z"), M.md(declared, ver, dl0, timestamp="２０２０-01-01T00:00:00Z"),
                            M.md(declared, True, dl0), M.md(declared, 2.0, dl0), M.md(declared, ver, dl0, timestamp=Ellipsis),
                            M.md(declared, ver, dl0, extra_field={"x": [1, None]}), M.md(declared, ver, dl0, spec=""),
+                           M.md(declared, ver, dl0, spec="1.0.0"), M.md(declared, ver, dl0, spec="2.0.0-b\u00eata\udc80"), M.md(declared, ver, dl0, spec="not a version"),
                            M.md(declared, ver, dict(dl0, **{"é": M.delegation((), 7.0), "": M.delegation((0, 1, 2, 3), True)})),
                            M.md(declared, 2 ** 80, dl0, expiration="9999-12-31T23:59:59Z")]
               if declared != "root":
@@ -54,6 +55,10 @@ def run(ctx):
             return "metadata declaring type %s accepted as role %s" % (c["meta"]["declared"], c["meta"]["as"])
         return None
     core.run_stream(ctx, core.Stream("type-mismatched delegating metadata x decorations of the unsigned signature map", cases, rel, oracle_mismatch))
+    # the same under standard outputs that cannot print everything (ASCII, failing on every write): an error inside a diagnostic is not an acceptance
+    sub = cases[:: max(1, len(cases) // 600)]
+    core.failing_stdout_streams(ctx, "type-mismatched delegating metadata", sub, lambda c: False)
+    core.run_stream(ctx, core.Stream("type-mismatched delegating metadata, ASCII-only standard output", sub, rel, oracle_mismatch, env={"PYTHONIOENCODING": "ascii:strict"}))
 
     # (i) metamorphic: accepted envelope => stripped envelope accepted (all three verifiers), on the implementation
     base = []
